@@ -146,6 +146,18 @@ fn cases(max_n: usize) -> Vec<Case> {
             }
         }
     }
+    // a question name written through the header bytes, followed by compressed records
+    {
+        let mut p = vec![2, b'a', 0x84, 0, 0, 1, 0, 2, 0, 1, 0, 1, 0xc0, 0, 0, 1, 0, 1];
+        p.extend_from_slice(&[0xc0, 0, 0, 1, 0, 1, 0, 0, 0, 100, 0, 4, 1, 1, 1, 1]);
+        p.extend_from_slice(&[1, b'w', 0xc0, 0, 0, 5, 0, 1, 0, 0, 0, 101, 0, 2, 0xc0, 0]);
+        p.extend_from_slice(&[0xc0, 0, 0, 2, 0, 1, 0, 0, 0, 102, 0, 4, 1, b'n', 0xc0, 0]);
+        p.extend_from_slice(&[0xc0, 34, 0, 1, 0, 1, 0, 0, 0, 103, 0, 4, 2, 2, 2, 2]);
+        assert!(wf(&p).is_ok(), "{:?}", wf(&p));
+        for (sec, n) in [(Sec::Question, 1usize), (Sec::Answer, 2), (Sec::Authority, 1), (Sec::Additional, 1)] {
+            v.push(Case { bytes: p.clone(), sec, incl_opt: false, prep: false, tag: format!("sec={} opt=none n={} ptr=1 header=1", sec_name(sec), n) });
+        }
+    }
     // packets longer than 256 bytes with names at 256-aligned offsets (hand-assembled, see gen::aligned_pointer_packets)
     let al = aligned_pointer_packets();
     for (i, tag) in [(4usize, "n256"), (5, "n256opt"), (13, "n512opt")] {
